@@ -2,6 +2,7 @@
 import Flumine.Proto
 import Flumine.Ladder
 import Flumine.Validation
+import Flumine.Controls
 open Flumine Flumine.Proto
 
 def parseLadder? (s : String) : Option LadderDef :=
@@ -33,6 +34,52 @@ def handleValidate (toks : List String) : Option String := do
     | some e => some ("ERR " ++ e)
   | _ => none
 
+def parseOptStatus? (s : String) : Option (Option Status) :=
+  if s = "-" then some none else (Status.ofName? s).map some
+
+def parseCOrder? (s : String) : Option COrder :=
+  match s.splitOn ":" with
+  | [id, sel, side, kind, line, price, status, complete, matched, avg, remaining, liab, size, target, betdaq, ladder] => do
+    let k ← match kind with
+      | "L" => some OKind.limit | "LOC" => some OKind.limitOnClose | "MOC" => some OKind.marketOnClose | _ => none
+    let lt ← match ladder with
+      | "C" => some LadderTag.classicOrFinest | "L" => some LadderTag.lineRange | "U" => some LadderTag.unknown | _ => none
+    let x : XOrder := {
+      id := ← id.toNat?, sel := ← sel.toNat?, side := ← Side.ofName? side, kind := k,
+      lineRange := ← parseBool? line, price := ← parseOptRat? price, status := ← parseOptStatus? status,
+      complete := ← parseBool? complete, sizeMatched := ← parseRat? matched, avgPrice := ← parseRat? avg,
+      sizeRemaining := ← parseRat? remaining, liability := ← parseRat? liab }
+    some { x := x, size := ← parseOptRat? size, target := ← parseOptRat? target, betdaq := ← parseBool? betdaq, ladder := lt }
+  | _ => none
+
+def parseOptCOrder? (s : String) : Option (Option COrder) :=
+  if s = "-" then some none else (parseCOrder? s).map some
+
+def parseOptNat? (s : String) : Option (Option Nat) :=
+  if s = "-" then some none else s.toNat?.map some
+
+def handleExpo (toks : List String) : Option String := do
+  match toks with
+  | ["expo", orders, sel, excl, new] =>
+    let os ← parseList? parseCOrder? orders
+    let e := getExposures (os.map (·.x)) (← sel.toNat?) (← parseOptNat? excl) ((← parseOptCOrder? new).map (·.x))
+    some (" ".intercalate ([e.matchedWin, e.matchedLose, e.unmatchedWin, e.unmatchedLose, e.worstWin, e.worstLose].map showRat))
+  | ["selexp", orders, sel] =>
+    let os ← parseList? parseCOrder? orders
+    some (showRat (selectionExposure (os.map (·.x)) (← sel.toNat?)))
+  | ["mexp", orders, active, winners, excl, new] =>
+    let os ← parseList? parseCOrder? orders
+    some (showRat (marketExposure (os.map (·.x)) (← active.toNat?) (← winners.toNat?) (← parseOptNat? excl)
+      ((← parseOptCOrder? new).map (·.x))))
+  | ["sexp", mo, ms, mm, orders, active, winners, order, kind, vok] =>
+    let os ← parseList? parseCOrder? orders
+    let lim : StratLimits := ⟨← parseOptRat? mo, ← parseOptRat? ms, ← parseOptRat? mm⟩
+    match strategyExposure lim (os.map (·.x)) (← active.toNat?) (← winners.toNat?) (← parseCOrder? order)
+        (← PkgKind.ofName? kind) (← parseBool? vok) with
+    | .ok _ => some "OK"
+    | .error e => some ("ERR " ++ e.name)
+  | _ => none
+
 def handle (toks : List String) : String :=
   match toks with
   | ["nearest", p] =>
@@ -53,6 +100,10 @@ def handle (toks : List String) : String :=
     match parseRat? a, parseRat? b, parseRat? c with
     | some x, some y, some z => showList showRat (makeLinePrices x y z)
     | _, _, _ => "bad-op"
+  | "expo" :: _ => (handleExpo toks).getD "bad-op"
+  | "selexp" :: _ => (handleExpo toks).getD "bad-op"
+  | "mexp" :: _ => (handleExpo toks).getD "bad-op"
+  | "sexp" :: _ => (handleExpo toks).getD "bad-op"
   | "validate" :: rest => (handleValidate rest).getD "bad-op"
   | _ => "bad-op"
 
